@@ -54,6 +54,15 @@ def _reg(kind, quick_runs):
 
 _REG = [_reg("pair", 400), _reg("trio", 250), _reg("vault", 400), _reg("incentive", 0)]
 
+DIST_RANDOM = {"suite": "dist", "trace": "Trace_Distributor", "cfg": "Trace_Distributor.cfg",
+               "quick": {"runs": 80, "ops": 60}, "thorough": {"runs": 2000, "ops": 120}, "procs": 6}
+DIST_SCHED = {"suite": "dist", "trace": "Trace_Distributor", "cfg": "Trace_Distributor.cfg", "sched_from": "MC_Distributor_sched",
+              "extra": {"mode": "sched"}, "quick": {"runs": 700}, "thorough": {"runs": 0}, "procs": 8}
+MC_DIST = {"module": "MC_Distributor", "quick": "MC_Distributor_quick.cfg", "thorough": "MC_Distributor.cfg", "workers": 6,
+           "timeout": {"quick": 600, "thorough": 3000}}
+MC_DIST_SCHED = {"module": "MC_Distributor", "quick": "MC_Distributor_sched.cfg", "thorough": "MC_Distributor_sched.cfg", "workers": 4,
+                 "emits": "MC_Distributor_sched"}
+
 PROPS = {
     "C01": {"mc": [MC_POOL], "suites": [POOL_SUITE]},
     "C02": {"mc": [MC_CPMATH], "suites": [MATH_CP, POOL_SUITE]},
@@ -76,6 +85,7 @@ PROPS = {
                         "extra": {"mode": "sched"}, "quick": {"runs": 0}, "thorough": {"runs": 0}, "procs": 6},
                        POOL_SUITE, VAULT_SUITE]},
     "C19": {"mc": [m for m, _ in _REG], "suites": [x for _, x in _REG]},
+    "C09": {"mc": [MC_DIST, MC_DIST_SCHED], "suites": [DIST_SCHED, DIST_RANDOM]},
     "C14": {"mc": [MC_POOL, MC_VAULT], "suites": [POOL_SUITE, VAULT_SUITE]},
     "C15": {"mc": [MC_POOL], "suites": [POOL_SUITE, MATH_SPREAD]},
 }
